@@ -124,8 +124,8 @@ for _p in ["C01", "C03", "C05", "C06", "C07", "C08", "C09"]:
     _add_bin(_p)
 for _p in ["C05", "C06"]:
     # stress phase of the inner driver: executions per selected early-stop scenario
-    PROPS[_p]["stages"][-1]["args_tier"] = {"quick": ["-hammer=12000"], "thorough": ["-hammer=150000"]}
-    PROPS[_p]["rule"] += ("; stress phase: about one in eight faulty/cancelled scenarios is also executed 12000 (thorough 150000) times from 8 goroutines with user functions that return at once, "
+    PROPS[_p]["stages"][-1]["args_tier"] = {"quick": ["-hammer=12000"], "thorough": ["-hammer=40000"]}
+    PROPS[_p]["rule"] += ("; stress phase: about one in eight faulty/cancelled scenarios is also executed 12000 (thorough 40000) times from 8 goroutines with user functions that return at once, "
                           "record nothing and take no lock (rare windows such as a job finishing at the very moment the directive gives up); a call that never returns counts only if the whole process is "
                           "provably stuck (two identical all-blocked goroutine censuses), blocked scheduler goroutines afterwards are a leak")
 
